@@ -276,6 +276,31 @@ def legacy_run(c):
         c.eq(f'{n}:warmup_only_then_empty_call:split_run_same_chain', r7[n].samples, r3[n].samples)
 
 
+def nuts_block_step_size(c):
+    """'with exact or invariant block samplers the joint target is left invariant': a NUTS block without a configured step size is an invariant kernel only if
+    the step size it uses during the sampling phase does not depend on the block's current value (a step size chosen from the current state makes the
+    transition kernel state-dependent; its stationary law is then not the conditional). Observed: the step size each sweep's NUTS transition uses, for two
+    different starting values of the block and otherwise identical runs (bounded stand-in: native; deterministic)"""
+    import io, contextlib
+    from cuqi.distribution import Gaussian, Gamma, JointDistribution
+    from cuqi.model import LinearModel
+    import cuqi.experimental.mcmc as EX
+    def run(x_start):
+        d = Gamma(2, 1, name='d'); x = Gaussian(np.zeros(2), lambda d: 1 / d, name='x'); y = Gaussian(LinearModel(np.eye(2))(x), 0.5, name='y')
+        J = JointDistribution(d, x, y)(y=np.array([1.0, -1.0]))
+        np.random.seed(0)
+        G = EX.HybridGibbs(J, {'x': EX.NUTS(max_depth=3, initial_point=x_start), 'd': EX.Conjugate()})
+        eps = []; orig = EX.NUTS.step
+        def rec(self): eps.append(float(self._epsilon)); return orig(self)
+        EX.NUTS.step = rec
+        try:
+            with contextlib.redirect_stdout(io.StringIO()), contextlib.redirect_stderr(io.StringIO()): G.sample(4)
+        finally: EX.NUTS.step = orig
+        return eps
+    a = run(np.array([0.1, 0.1]) + 0.01 * c.real('p')); b = run(np.array([30.0, -30.0]))
+    c.holds('nuts_block_step_size_does_not_depend_on_the_blocks_current_value', a == b and len(set(a)) == 1, note=f"step sizes used per sweep: {a} (start near the mode) vs {b} (start far away)")
+
+
 def sampler_objects(c, case):
     """HybridGibbs keeps each block's state inside that block's sampler object: one object serving two blocks, or objects still holding the state of an
     earlier run, cannot start 'from that block's current value' - such a construction must be refused, or the first sweep must start every block at the
@@ -357,4 +382,5 @@ def jobs(tier):
     J.append(Job('HybridGibbs:block_target_of_a_real_joint:several_dependent_factors', block_target_of_real_joint, 'B', ['cuqi.experimental.mcmc._gibbs:HybridGibbs._set_target', 'cuqi.distribution._joint_distribution:MultipleLikelihoodPosterior.gradient'], nnum=3))
     for case in ('one_object_for_two_blocks', 'objects_of_a_finished_run'):
         J.append(Job(f'HybridGibbs:sampler_objects:{case}', lambda c, case=case: sampler_objects(c, case), 'B', ['cuqi.experimental.mcmc._gibbs:HybridGibbs._initialize_samplers', 'cuqi.experimental.mcmc._sampler:Sampler.initialize'], nnum=2))
+    J.append(Job('HybridGibbs:NUTS_block:step_size_in_the_sampling_phase', nuts_block_step_size, 'B', ['cuqi.experimental.mcmc._gibbs:HybridGibbs.step', 'cuqi.experimental.mcmc._gibbs:HybridGibbs._pre_warmup_and_pre_sample_sampler', 'cuqi.experimental.mcmc._hmc:NUTS._pre_warmup'], nnum=1))
     return J
